@@ -164,7 +164,9 @@ impl Rt for L154 {
                     for s in 0..3u8 {
                         for comp in [false, true] {
                             let Some((dp, sp)) = pan_presence(v2015, d, s, comp) else { continue };
-                            for alt in 0..pick(tier, &[0usize, 1], 1).len() {
+                            // value sets: 0/1 = two address sets with different PAN ids on the two
+                            // sides, 2 = source PAN id equal to the destination PAN id
+                            for alt in pick(tier, &[0usize, 2, 1], 2) {
                                 for (fp, ar) in pick(tier, &[(false, false), (true, true), (false, true), (true, false)], 2) {
                                     for seq in pick(tier, &[0u8, 255, 1], 2) {
                                         v.push((
@@ -179,7 +181,7 @@ impl Rt for L154 {
                                                 frame_version: ver,
                                                 dst_pan_id: dp.then(|| PANS[alt % 2]),
                                                 dst_addr: Some(addr_of(d, alt)),
-                                                src_pan_id: sp.then(|| PANS[(alt + 1) % 2]),
+                                                src_pan_id: sp.then(|| if alt == 2 { PANS[0] } else { PANS[(alt + 1) % 2] }),
                                                 src_addr: Some(addr_of(s, alt + 1)),
                                             },
                                             (),
@@ -225,7 +227,10 @@ impl Rt for L154 {
         } else if r.src_pan_id.is_some() == r.pan_id_compression {
             "layout-src-pan-not-as-compression-bit".into()
         } else {
-            "layout-dstpan-srcpan-iff-uncompressed".into()
+            // the layout emit/buffer_len are written for; deliberately NOT named `layout-*`:
+            // a failure here is a different matter from the two unsupported layouts above
+            // and must not fall under a glob meant for them
+            "consistent-layout".into()
         }
     }
     fn field_group(f: &str) -> String {
@@ -261,7 +266,7 @@ impl Rt for L154 {
         )
     }
     fn domain_doc() -> &'static str {
-        "frame_type {Data, MacCommand, Beacon, Multipurpose} x version {2006, 2015, 2003} x dst mode {absent, short, extended} x src mode (same) x PAN-ID compression, restricted to the combinations the standard defines, PAN-ID presence derived from the standard's tables (as the parser does) x frame_pending/ack_request x sequence number {0,255,1} x 2 address/PAN value sets (incl. broadcast short address and broadcast PAN); security_enabled = false only (Repr cannot carry the auxiliary security header)"
+        "frame_type {Data, MacCommand, Beacon, Multipurpose} x version {2006, 2015, 2003} x dst mode {absent, short, extended} x src mode (same) x PAN-ID compression, restricted to the combinations the standard defines, PAN-ID presence derived from the standard's tables (as the parser does) x frame_pending/ack_request x sequence number {0,255,1} x 3 address/PAN value sets (incl. broadcast short address and broadcast PAN, source PAN different from and equal to the destination PAN); security_enabled = false only (Repr cannot carry the auxiliary security header)"
     }
 }
 
